@@ -157,7 +157,7 @@ impl Property for C04 {
         vec!["ring's signature verification is sound; forged = the forgeries the generator can make (wrong key, wrong content, flipped bit, relabelled id)".into()]
     }
     fn cases(tier: Tier) -> u64 {
-        tier.pick(60_000, 1_000_000)
+        tier.pick(240_000, 1_000_000)
     }
     fn strategy(_tier: Tier) -> BoxedStrategy<Spec> {
         prop_oneof![4 => spec_strategy(true, 4), 1 => spec_strategy(false, 3)].boxed()
